@@ -1161,7 +1161,7 @@ func updateFloatPrevValuesFunc(prev Chunk, prevValues []interface{}, ordinal int
 func updateStringPrevValuesFunc(prev Chunk, prevValues []interface{}, ordinal int) {
 	column := prev.Column(ordinal)
 	vi := column.Length() - column.NilCount() - 1
-	if vi > 0 {
+	if vi >= 0 {
 		prevValues[ordinal] = prev.Column(ordinal).StringValue(vi)
 	}
 }
